@@ -1,6 +1,7 @@
 /-
   Ops/RSetOps.lean — `rset.iter <inc> <exc>` (streams `[..]|[..]`, `-` for none), `rset.spec`,
-  `rset.run <cache 0|1> <op;op;…>` with ops `rr[..]`, `rd5`, `xr[..]`, `xd5`, `q<query>`.
+  `rset.run <cache 0|1> <op;op;…>` with ops `rr[..]`, `rd5`, `xr[..]`, `xd5`, `q<query>`,
+  `o<k>` (open an iterator, take k, keep it), `u<j>:<k>` (take k more from kept iterator j).
 -/
 import DateutilVerif.Base.Wire
 import DateutilVerif.Model.RRuleSet
@@ -20,6 +21,11 @@ def parseOp? (s : String) : Option Op :=
   | 'x' :: 'r' :: rest => do some (.addExRule (← parseIntList? (String.ofList rest)))
   | 'x' :: 'd' :: rest => do some (.addExDate (← parseInt? (String.ofList rest)))
   | 'q' :: rest => do some (.q (← parseQuery? (String.ofList rest)))
+  | 'o' :: rest => do some (.open_ (← (String.ofList rest).toNat?))
+  | 'u' :: rest =>
+    match (String.ofList rest).splitOn ":" with
+    | [j, k] => do some (.resume (← j.toNat?) (← k.toNat?))
+    | _ => none
   | _ => none
 
 def showObs : Option Queries.Res → String
